@@ -204,7 +204,9 @@ pub trait ClientVaultStorage: ClientBaseStorage {
             r is Ok ==> final(self).stored() == old(self).stored().insert(vault_id(vault@), vault@);
     /// traits.rs:194: deletes the persisted vault (and its event log) of the folder
     fn remove_vault(&mut self, folder_id: &VaultId, _t: Internal) -> (r: ClResult<()>)
-        ensures final(self).fmap() == old(self).fmap(), final(self).idx() == old(self).idx(), final(self).summ() == old(self).summ();
+        ensures final(self).fmap() == old(self).fmap(), final(self).idx() == old(self).idx(), final(self).summ() == old(self).summ(),
+            r is Ok ==> final(self).stored() == old(self).stored().remove(folder_id@),
+            r is Err ==> final(self).stored() == old(self).stored() || final(self).stored() == old(self).stored().remove(folder_id@);
     /// traits.rs:212
     fn summaries_mut(&mut self, _t: Internal) -> (r: &mut Vec<Summary>)
         ensures r@ == old(self).summ(), final(self).summ() == final(r)@,
